@@ -45,6 +45,7 @@ class Inst:
         self.bounds = bounds
         self.harness_only = set(harness_only or [])
         self.safety_only = safety_only
+        self.borrowed = False
 
     def bounds_text(self):
         us = ', '.join('%s:%s' % (k if isinstance(k, str) else '%s#%d' % k, v) for k, v in sorted(self.unwindset.items(), key=str))
@@ -983,6 +984,7 @@ def safety(insts):
     for i in insts:
         i.name = 'sfty_' + i.name
         i.safety_only = True
+        i.borrowed = True
         i.bounds = (i.bounds or '') + ' [safety sweep: memory safety, arithmetic, termination, fatal error only]'
         out.append(i)
     return out
@@ -1029,8 +1031,16 @@ PROPS = {
 }
 
 
+HOME = {'tpdo_bmc': 'C12', 'tpdo2': 'C12', 'rpdo_step': 'C13', 'sdo_step': 'C01', 'sdo_xfer': 'C02', 'tmr_bmc': 'C07'}
+
+
 def instances(prop, tier):
     f = PROPS.get(prop)
     if f is None:
         return []
-    return f(tier)
+    out = f(tier)
+    for i in out:
+        # a family used outside its home property is a subset there
+        if HOME.get(i.family) not in (None, prop) and not (i.family == 'sdo_step' and prop == 'C04') and not (i.family == 'sdo_xfer' and prop in ('C03', 'C05')) and not (i.family == 'tmr_bmc' and prop == 'C08'):
+            i.borrowed = True
+    return out
